@@ -181,6 +181,9 @@ type Exec struct {
 	noSafety bool
 	instDone map[string]bool
 	recDepth map[string]int
+	recDone  map[string]bool
+	recPending map[string]bool
+	recName  map[string]string
 	lemmaText map[string]string
 	loopsDone map[*ssa.Function]bool
 	loopOrd  map[*ssa.BasicBlock]int
